@@ -194,6 +194,10 @@ class Raised(Exception):
 
 
 _MISSING = object()
+
+
+class _StopComp(Exception):
+    """Stops the element loop of a generator expression that its consumer has finished with."""
 _ACTIVE: list = []          # the interpreter used last (harness code reads public attributes of model objects through it)
 
 
@@ -1816,6 +1820,32 @@ class Interp:
         self._comp(e.generators, env, lambda en: out.__setitem__(self.eval(e.key, en), self.eval(e.value, en)))
         return out
 
+    def _lazy_genexp(self, kind, e, env):
+        ge = e.args[0]
+        box = {"any": [False], "all": [True], "next": [_MISSING]}[kind]
+
+        def emit(en):
+            v = self.eval(ge.elt, en)
+            if kind == "next":
+                box[0] = v
+                raise _StopComp()
+            t = self.truth(v, ge.elt)
+            if kind == "any" and t:
+                box[0] = True
+                raise _StopComp()
+            if kind == "all" and not t:
+                box[0] = False
+                raise _StopComp()
+        try:
+            self._comp(ge.generators, env, emit)
+        except _StopComp:
+            pass
+        if kind == "next" and box[0] is _MISSING:
+            if len(e.args) == 2:
+                return self.eval(e.args[1], env)
+            raise Raised(ExcVal("StopIteration", ()), e)
+        return box[0]
+
     def ev_Call(self, e, env):
         # super().method(...)
         if isinstance(e.func, ast.Attribute) and isinstance(e.func.value, ast.Call) and \
@@ -1841,6 +1871,11 @@ class Interp:
                 f = lambda *a, **k: hook(selfv, *a, **k)  # noqa: E731
         else:
             d = dotted(e.func)
+            if d in ("any", "all", "next") and e.args and isinstance(e.args[0], ast.GeneratorExp) and not e.keywords \
+                    and len(e.args) == (1 if d != "next" else len(e.args)) and len(e.args) <= 2 \
+                    and not env.lookup(d)[0] and d not in self.ext:
+                # a generator expression is consumed lazily: any / all stop at the first deciding element, next takes one
+                return self._lazy_genexp(d, e, env)
             if d == "isinstance" and len(e.args) == 2:
                 return self.isinstance(self.eval(e.args[0], env), self.eval(e.args[1], env), e)
             if d == "type" and len(e.args) == 1:
